@@ -104,7 +104,7 @@ WRITERS = {'metricTx': w_metric, 'contextNewTx': w_context_new, 'contextUpdateTx
 
 
 def new_bench():
-    bench = lt.Bench(lt.MDIB_TWO)
+    bench = lt.Bench(lt.MDIB_TWO, role_providers=False)   # no background transactions: every commit is scheduled by the harness
     tracer = lt.install_tracing(bench.mdib)
     return bench, tracer
 
@@ -505,6 +505,16 @@ def run(ctx):
         rng.shuffle(pairs)
         for p1, p2 in pairs[:ctx.n(6, 40)]:
             cases.append((rname, [rng.choice(writers), rng.choice(writers)], [p1, p2]))
+    # corpus first: past failures, injection point given by the kind of the reader event ("rel" = right after the release)
+    corpus = []
+    cdir = core.VERIF + '/corpus/C07'
+    import json
+    import os
+    for fn in sorted(os.listdir(cdir)) if os.path.isdir(cdir) else []:
+        entry = json.load(open(os.path.join(cdir, fn)))
+        kinds = [e[0] for e in base_events[entry['reader']]]
+        corpus.append((entry['reader'], entry['writers'], [kinds.index(k) if k in kinds else len(kinds) for k in entry['at']]))
+    cases = corpus + cases
     lines, metas = [], []
     for rname, wn, pts in cases:
         res = run_case(ctx, state, rname, wn, pts)
@@ -545,7 +555,11 @@ def run(ctx):
             m_ver = r_obs_v[0] if r_obs_v else None
             impl = (res['answer_version'] - res['v0'], res['answer_consistent'])
             if (m_ver, m_consistent) != impl or left != 0:
-                ctx.disagree('forced schedule: (MdibVersion offset, consistent) of the reader in the LTS == real answer', case, [m_ver, m_consistent, o], list(impl))
+                ctx.disagree('forced schedule: (MdibVersion offset, consistent) of the reader in the LTS == real answer',
+                             {**case, 'v0': res['v0'], 'answer_version': res['answer_version'], 'n_events': res['n_events'],
+                              'events_near': [[p, [list(e) for e in res['r_events'][max(0, p - 2):p + 3]]] for p in case['points']],
+                              'writer_events': [list(e[1:]) for e in res['events'] if e[0] != res['reader_tid']][:8]},
+                             [m_ver, m_consistent, o], list(impl))
         if progs:
             seen = {}
             for case, res, mprogs in metas:
